@@ -4,13 +4,11 @@
     Model: [Robs/HashSet.v].  Elements are compared with Leibniz equality ([replace]/[insert] of an
     [Eq]-equal but distinguishable element is outside the claim).
 
-    Full statement (FALSE on the current code, see [C13_HashSet_late_incremental_refuted]):
+    Full statement, proved without exception:
       forall init ops k md max, fits_from max init ops k = true ->
         mirror_ok init ops k md max /\ hand_ok init ops k md.
-    Proved: the mirror part for every input outside the decidable class
-      F11  incremental subscription of a non-empty set made after [done()]
-           ([late_incremental_at init ops k md = true]) -- the mirror task stops after one event;
-    the hand-consumed part without exception. *)
+    (F11, incremental subscription of a non-empty set made after [done()], was repaired in /repo by
+    commit 290b96a; the model follows the repaired code.) *)
 From Remoc Require Import Lib.Base Robs.KeyMap Robs.HashSet Robs.HashSetProofs.
 From Remoc Require Gen.Api Gen.Variants.
 
@@ -20,21 +18,22 @@ From Remoc Require Gen.Api Gen.Variants.
     reports no error, holds exactly the observed elements, is done iff [done()] was called, and is
     complete. *)
 Theorem C13_HashSet_mirror : forall init ops k md max,
-  late_incremental_at init ops k md = false ->
   fits_from max init ops k = true ->
   mirror_ok init ops k md max.
-Proof. exact mirror_ok_outside_known_class. Qed.
+Proof. exact mirror_ok_always. Qed.
 
 (** Consuming [take_initial()] and the [recv()] stream by hand gives the same elements and sees
     [Done] iff [done()] was called -- no exception. *)
 Theorem C13_HashSet_hand : forall init ops k md, hand_ok init ops k md.
 Proof. exact hand_ok_always. Qed.
 
-(** F11: [{1, 2}], [done()], then [subscribe_incremental().mirror()]. *)
-Theorem C13_HashSet_late_incremental_refuted : exists init ops k md max,
-  late_incremental_at init ops k md = true /\ fits_from max init ops k = true /\
-  ~ mirror_ok init ops k md max.
-Proof. exists [1; 2], f11_ops, 1%nat, Incremental, 100. exact late_incremental_refuted. Qed.
+(** The former F11 witness -- [{1, 2}], [done()], then [subscribe_incremental().mirror()] -- is now
+    mirrored completely. *)
+Example C13_HashSet_late_incremental_now_ok :
+  late_incremental_at [1; 2] f11_ops 1 Incremental = true /\
+  mirror_task (mirror_init Incremental (state_at [1; 2] f11_ops 1) 100) (stream_at [1; 2] f11_ops 1 Incremental)
+  = ({| m_hs := [(1, tt); (2, tt)]; m_complete := true; m_done := true; m_max := 100 |}, None).
+Proof. exact late_incremental_now_ok. Qed.
 
 (** The modelled operations / events are exactly those found in the Rust source on this run. *)
 Theorem C13_HashSet_api_covered :
@@ -51,7 +50,7 @@ Example C13_HashSet_nonvacuous :
   let init := [3; 1; 2; 3] in
   let ops := [Insert 4; Insert 1; Retain true [(2, false)]; Take 9; Take 1; Replace 5; Remove 3; Clear; Clear;
               Insert 6; MarkDone; Insert 7] in
-  late_incremental_at init ops 2 Incremental = false /\ fits_from 4 init ops 2 = true /\
+  fits_from 4 init ops 2 = true /\
   elems (o_hs (final_state init ops)) = [6] /\
   stream_at init ops 2 Incremental =
     [ESet 1; ESet 2; ESet 3; ESet 4; EInitialComplete; ERemove 2; ERemove 1; ESet 5; ERemove 3; EClear; ESet 6; EDone].
@@ -59,7 +58,7 @@ Proof. vm_compute. repeat split; reflexivity. Qed.
 
 Print Assumptions C13_HashSet_mirror.
 Print Assumptions C13_HashSet_hand.
-Print Assumptions C13_HashSet_late_incremental_refuted.
+Print Assumptions C13_HashSet_late_incremental_now_ok.
 Print Assumptions C13_HashSet_api_covered.
 Print Assumptions C13_HashSet_api_complete.
 Print Assumptions C13_HashSet_events_covered.
